@@ -625,8 +625,13 @@ func reduceOr(a b6.Expression, b b6.Expression) b6.Expression {
 	}
 }
 
-func ParseExpression(expression string) (b6.Expression, error) {
+func init() {
+	// Set once, rather than on every parse: expressions are parsed concurrently
+	// by the UI's handlers.
 	yyErrorVerbose = true
+}
+
+func ParseExpression(expression string) (b6.Expression, error) {
 	l := lexer{Expression: expression}
 	yyParse(&l)
 	if l.Top.AnyExpression == nil {
@@ -636,7 +641,6 @@ func ParseExpression(expression string) (b6.Expression, error) {
 }
 
 func ParseExpressionWithLHS(expression string, lhs b6.Expression) (b6.Expression, error) {
-	yyErrorVerbose = true
 	l := lexer{Expression: expression, LHS: lhs}
 	yyParse(&l)
 	if l.Top.AnyExpression == nil {
